@@ -236,12 +236,23 @@ func Dump(n ast.Vertex, wt, wp bool) (out string, pan interface{}) {
 		d = d.WithPositions()
 	}
 	d.Dump(n)
-	return b.String(), nil
+	first := b.String()
+	// "the dump of any tree": also of a tree dumped before — the same Dumper used again must write the same text
+	d.Dump(n)
+	if second := b.String()[len(first):]; second != first {
+		return first, secondDumpDiffers{second}
+	}
+	return first, nil
 }
+
+type secondDumpDiffers struct{ second string }
 
 // Check returns ("", "") if the dump of n is a valid Go literal mirroring n, else (class, detail).
 func Check(n ast.Vertex, wt, wp bool) (class, detail string) {
 	out, pan := Dump(n, wt, wp)
+	if sd, ok := pan.(secondDumpDiffers); ok {
+		return "a second Dump through the same Dumper does not repeat the first", clip(out, 150) + " :: then :: " + clip(sd.second, 150)
+	}
 	if pan != nil {
 		return "panic", fmt.Sprint(pan)
 	}
